@@ -60,7 +60,7 @@ ASSUMPTIONS = [
     "cross-set models are run with use_pca=False (thorough: also n_pca_modes='all'); PCA truncation is C09/C16's subject",
     "fractions/correlations an accessor refuses on the source node are compared as 'refused on both nodes' (differential oracle, DESIGN 4.2)",
 ]
-TALLY_KEYS = ("model", "kind", "container", "depth", "latname", "wpres")
+TALLY_KEYS = ("model", "kind", "container", "depth", "latname", "wpres", "entry")
 TRUSTED = ["statsmodels import shim (/verif/shims) so that xeofs.cross constructors can be called; correction=None never reaches it"]
 MAX_REFUSED_FRACTION = 0.02
 
@@ -358,6 +358,20 @@ def cases(tier, seed):
     for c in out:
         c.setdefault("wpres", "same")
 
+    # ---------------------------------------------------------------- fitting entry point
+    # single-set models have two public methods that fit: fit(X, dim, weights) and fit_transform(X, dim, weights) (the
+    # cross-set classes only have fit). Every equivalence edge of the options (fold, cos2w, cos2w>fold) is evaluated on models
+    # fitted through either one; the scores fit_transform returns are compared with model.scores() as well.
+    extra = []
+    for c in out:
+        if len(c["shape"]) != 2 or c["wpres"] not in ("same", "perm"):
+            continue
+        if (c["depth"] == 1 and c["kind"] in ("fold", "cos2w")) or c["kind"] == "cos2w>fold" or (thorough and "fold" in c["kind"].split(">")):
+            extra.append(dict(c, entry="fit_transform"))
+    out += extra
+    for c in out:
+        c.setdefault("entry", "fit")
+
     for c in out:
         if "patterns" in c:
             c["patterns"] = thorough  # homogeneous/heterogeneous correlation patterns are compared in the thorough tier only (0.1 s per fit)
@@ -554,7 +568,11 @@ class Ctx:
             m = xe.single.SparsePCA(alpha=0.0, beta=0.0, **kw)
         else:
             m = getattr(xe.single, case["model"])(**kw)
-        m.fit(X, dim="time", weights=w)
+        ret = None
+        if case.get("entry", "fit") == "fit_transform":
+            ret = m.fit_transform(X, dim="time", weights=w)
+        else:
+            m.fit(X, dim="time", weights=w)
         fld = self.fields[0]
         modes = np.arange(1, k + 1)
         o = dict(
@@ -566,6 +584,9 @@ class Ctx:
             o["sv"] = np.asarray(m.singular_values().sel(mode=modes).values)
         o["ev"] = np.asarray(m.explained_variance().sel(mode=modes).values)
         o["G"] = [self._gain(m.preprocessor, 0, node)]
+        if ret is not None:  # what the second entry point returns is the fitted model's scores
+            Rm = D.to_matrix(ret, ["time"], ["mode"], {"time": fld.time, "mode": modes})
+            o["entry_dev"] = _mx(Rm - o["S"][0]) / max(_mx(o["S"][0]), 1e-300)
         o["vals"]["explained_variance_ratio"] = np.asarray(m.explained_variance_ratio().sel(mode=modes).values)
         return o
 
@@ -854,6 +875,7 @@ def _mode_errs(a, b, c, strict, es, j):
 def node_keys(case):
     base = {k: case[k] for k in ("model", "shape", "spec", "center", "standardize", "container", "latname", "lats", "n_modes", "start")}
     base["wpres"] = case.get("wpres", "same")
+    base["entry"] = case.get("entry", "fit")
     base["alpha"] = case.get("alpha")
     base["pca"] = case.get("pca")
     return [json.dumps([base, case["path"][:i]], sort_keys=True) for i in range(len(case["path"]) + 1)]
@@ -871,9 +893,14 @@ def run_case(case, seed):
     if min(cd["sd_min"] for cd in conds) < 1e-6:  # only standardised fields report a finite sd_min
         return dict(outcome="skipped:std_floor", nontrivial=False, states=0, transitions=0, traces=0)
     fits = [ctx.fit(nd) for nd in nodes]
+    V0 = []
+    for i, ft in enumerate(fits):
+        if ft.get("entry_dev", 0.0) > 1e-8:
+            V0.append(viol("fit_transform_scores", case["model"], "node %d of path %s: scores returned by fit_transform differ from model.scores() by %.3e (relative)"
+                           % (i, json.dumps(case["path"]), ft["entry_dev"]), container=case["container"]))
     alpha = [float(x) for x in case.get("alpha", [1.0])]
     k = case["n_modes"]
-    V = []
+    V = list(V0)
     rels = [(0, 1)] if len(nodes) == 2 else [(0, 1), (1, 2), (0, 2)]
     totals = dict(values=0, vectors=0, clusters=0, skipped_loose=0, skipped_cut=0, skipped_null=0)
     margin = 0.0
@@ -894,7 +921,7 @@ def run_case(case, seed):
     return dict(
         violations=V, outcome="violation" if V else ("ok" if nontrivial else "ok:values_only"), nontrivial=nontrivial,
         states=0, transitions=len(case["path"]), traces=len(rels),
-        info=dict(nodes=node_keys(case), delta=float(worst), margin=float(margin), kind=case["kind"], latname=case["latname"], wpres=case.get("wpres", "same"), **totals),
+        info=dict(nodes=node_keys(case), delta=float(worst), margin=float(margin), kind=case["kind"], latname=case["latname"], wpres=case.get("wpres", "same"), entry=case.get("entry", "fit"), **totals),
     )
 
 
@@ -932,6 +959,9 @@ def vacuity(outcomes, results, tier):
     missing = {"shift", "affine", "global", "fold", "cos2w"} - kinds
     if missing:
         return "edge kinds never validated: %s" % sorted(missing)
+    entries = {i.get("entry") for i in infos if "fold" in i.get("kind", "")}
+    if not {"fit", "fit_transform"} <= entries:
+        return "weights == pre-multiplied data validated through entry points %s only" % sorted(map(str, entries))
     pres = {i.get("wpres") for i in infos if "fold" in i.get("kind", "")}
     if not {"same", "rev", "perm", "lat", "lat_rev"} <= pres:
         return "weights == pre-multiplied data validated under weight presentations %s only" % sorted(map(str, pres))
